@@ -966,8 +966,8 @@ parser! {
     }
     // TODO add instruction_list
     rule function_body() -> Vec<StmtKind> = statement_list()
-    // TODO add many types here
-    rule var2_init_decl() -> Vec<UntypedVarDecl> = var1_init_decl__with_ambiguous_struct()
+    // The unambiguous forms must come first (the same order as in var_init_decl)
+    rule var2_init_decl() -> Vec<UntypedVarDecl> = structured_var_init_decl__without_ambiguous() / string_var_declaration() / array_var_init_decl() / var1_init_decl__with_ambiguous_struct()
 
     // B.1.5.2 Function blocks
     // IEC 61131 defines separate standard and derived function block names,
